@@ -154,6 +154,15 @@ func (r *c13run) checkHeld(when string) error {
 }
 
 func checkC13(s *C13Spec) Result {
+	ledgerStart()
+	res := checkC13Run(s)
+	if err := ledgerVerify(); err != nil && res.Err == nil {
+		res.Err = err
+	}
+	return res
+}
+
+func checkC13Run(s *C13Spec) Result {
 	var res Result
 	fail := func(err error) Result { res.Err = err; return res }
 
